@@ -5,7 +5,7 @@
 cd "$(dirname "$0")/.."
 NAME=$1; PATCH=$(realpath "$2"); DEMO0=$(realpath "$3"); CHECKS=$4
 # demonstrations often hard-code the author's worktree path: point them at the scratch tree instead
-DEMO=/tmp/vpd-se-$NAME.$(basename "$DEMO0"); sed "s#/tmp/vp[s-y]-C[0-9][0-9]#/tmp/vpd-se-$NAME#g" "$DEMO0" > "$DEMO"
+DEMO=/tmp/vpd-se-$NAME.$(basename "$DEMO0"); sed "s#/tmp/vp[s-z]-C[0-9][0-9]#/tmp/vpd-se-$NAME#g" "$DEMO0" > "$DEMO"
 export GOFLAGS=-mod=mod GOPROXY=off GOSUMDB=off GOTOOLCHAIN=local
 WT=/tmp/vpd-se-$NAME
 git -C /repo worktree remove --force $WT 2>/dev/null; rm -rf $WT $WT.verif
